@@ -1,0 +1,176 @@
+//go:build verif
+
+// Contracts and ghost/spec functions for package util, read by the /verif condition
+// generator (govc). Compiled only with -tags verif; adds no behaviour.
+package util
+
+import (
+	"bytes"
+	"regexp"
+	"strconv"
+	"strings"
+
+	"github.com/coreruleset/crs-toolchain/v2/regex"
+	"github.com/coreruleset/crs-toolchain/v2/utils"
+)
+
+func reMatch(re *regexp.Regexp, s string) bool { return re.MatchString(s) }
+
+func reGroup(re *regexp.Regexp, s string, k int) string {
+	m := re.FindStringSubmatch(s)
+	if m == nil {
+		return ""
+	}
+	return m[k]
+}
+
+func itoa(n int) string { return strconv.Itoa(n) }
+
+func forall(lo, hi int, p func(int) bool) bool {
+	for k := lo; k < hi; k++ {
+		if !p(k) {
+			return false
+		}
+	}
+	return true
+}
+
+func implies(a, b bool) bool { return !a || b }
+
+// OpaqueBlank: the line is empty after bytes.TrimSpace (uninterpreted for the prover;
+// executable here). bytes.TrimSpace is assumed to be a function of its argument.
+func OpaqueBlank(s []byte) bool { return len(bytes.TrimSpace(s)) == 0 }
+
+//@ extern bytes.TrimSpace
+//@   params s
+//@   results r
+//@   ensures (len(r) == 0) == OpaqueBlank(s)
+
+// SpecEofIdx: index of the last non-blank line among lines[0..i], or -1.
+func SpecEofIdx(lines [][]byte, i int) int {
+	if i < 0 || i >= len(lines) {
+		return -1
+	}
+	if !OpaqueBlank(lines[i]) {
+		return i
+	}
+	return SpecEofIdx(lines, i-1)
+}
+
+// End-of-file normalisation: everything after the last non-blank line is replaced by
+// one empty line (so that joining with "\n" ends the file with exactly one newline);
+// an empty list becomes two empty lines (a single "\n").
+//@ contract TestRenumberer.formatEndOfFile
+//@   tags C13
+//@   opt termination C13
+//@   results r
+//@   ensures empty: implies(len(lines) == 0, len(r) == 2 && len(r[0]) == 0 && len(r[1]) == 0)
+//@   ensures length: implies(len(lines) > 0, len(r) == SpecEofIdx(lines, len(lines)-1) + 2)
+//@   ensures kept: implies(len(lines) > 0, forall(0, len(r)-1, func(k int) bool { return r[k] == lines[k] }))
+//@   ensures last-empty: implies(len(lines) > 0, len(r[len(r)-1]) == 0)
+//@   ensures functional: r == SpecEofList(lines)
+//@   loop 0 invariant -1 <= i && i <= len(lines)-1 && eof == i
+//@   loop 0 invariant SpecEofIdx(lines, len(lines)-1) == SpecEofIdx(lines, i)
+//@   loop 0 decreases i + 1
+
+// File-level behaviour of renumber-tests for one file: never writes in check mode,
+// writes at most once and only the file it was given, writes exactly the renumbered
+// bytes and only when they differ from what was read; in check mode it fails exactly
+// when a rewrite would change the file.
+//@ contract TestRenumberer.processFile
+//@   tags C13 C15
+//@   results r
+//@   modifies fsWrites
+//@   ensures check-never-writes: implies(checkOnly, fsWrites() == old(fsWrites()))
+//@   ensures at-most-one-write: fsWrites() <= old(fsWrites())+1
+//@   ensures writes-own-path: implies(fsWrites() > old(fsWrites()), lastWritePath() == filePath)
+//@   ensures writes-renumbered-bytes: implies(fsWrites() > old(fsWrites()), called(processYaml) && lastWriteData() == resultOf(processYaml, 0) && lastRead() != resultOf(processYaml, 0))
+//@   ensures check-verdict: implies(checkOnly && called(processYaml) && resultOf(processYaml, 1) == nil, (r != nil) == (lastRead() != resultOf(processYaml, 0)))
+//@   ensures write-iff-changed: implies(!checkOnly && called(processYaml) && resultOf(processYaml, 1) == nil && r == nil, (fsWrites() > old(fsWrites())) == (lastRead() != resultOf(processYaml, 0)))
+
+// ---- functional specification of the renumbering of one file ----------------------
+// The n-th line matched by TestIdRegex gets the number n, the n-th line matched by
+// TestTitleRegex (after the id rewrite, as in the code) gets "<rule id>-n"; every
+// other line is copied unchanged. Lines are terminated by "\n".
+
+// SpecIdCount: number of test_id lines among lines[0..n).
+func SpecIdCount(lines []string, n int) int {
+	if n <= 0 || n > len(lines) {
+		return 0
+	}
+	if reMatch(regex.TestIdRegex, lines[n-1]) {
+		return SpecIdCount(lines, n-1) + 1
+	}
+	return SpecIdCount(lines, n-1)
+}
+
+// SpecIdStep: line k after the test_id rewrite.
+func SpecIdStep(lines []string, k int) string {
+	if reMatch(regex.TestIdRegex, lines[k]) {
+		return reGroup(regex.TestIdRegex, lines[k], 1) + " " + itoa(SpecIdCount(lines, k+1))
+	}
+	return lines[k]
+}
+
+// SpecTitleCount: number of test_title lines among lines[0..n).
+func SpecTitleCount(lines []string, n int) int {
+	if n <= 0 || n > len(lines) {
+		return 0
+	}
+	if reMatch(regex.TestTitleRegex, SpecIdStep(lines, n-1)) {
+		return SpecTitleCount(lines, n-1) + 1
+	}
+	return SpecTitleCount(lines, n-1)
+}
+
+// SpecOutLine: the line written for input line k.
+func SpecOutLine(ruleId string, lines []string, k int) string {
+	if reMatch(regex.TestTitleRegex, SpecIdStep(lines, k)) {
+		return reGroup(regex.TestTitleRegex, SpecIdStep(lines, k), 1) + " " + ruleId + "-" + itoa(SpecTitleCount(lines, k+1))
+	}
+	return SpecIdStep(lines, k)
+}
+
+// SpecOut: the text written for lines[0..n).
+func SpecOut(ruleId string, lines []string, n int) string {
+	if n <= 0 || n > len(lines) {
+		return ""
+	}
+	return SpecOut(ruleId, lines, n-1) + SpecOutLine(ruleId, lines, n-1) + "\n"
+}
+
+// SpecEofList: functional form of formatEndOfFile.
+func SpecEofList(lines [][]byte) [][]byte {
+	if len(lines) == 0 {
+		return [][]byte{{}, {}}
+	}
+	return append(append([][]byte{}, lines[:SpecEofIdx(lines, len(lines)-1)+1]...), []byte{})
+}
+
+func OpaqueSplitNL(s []byte) [][]byte { return bytes.Split(s, []byte("\n")) }
+func OpaqueJoinNL(l [][]byte) []byte  { return bytes.Join(l, []byte("\n")) }
+
+//@ extern bytes.Split
+//@   params s sep
+//@   results r
+//@   ensures implies(sep == "\n", r == OpaqueSplitNL(s))
+
+//@ extern bytes.Join
+//@   params l sep
+//@   results r
+//@   ensures implies(sep == "\n", r == OpaqueJoinNL(l))
+
+//@ contract TestRenumberer.processYaml
+//@   tags C13 C17
+//@   opt scan-complete C17
+//@   opt termination C13
+//@   results out err
+//@   ensures[C13] renumbered: implies(err == nil, out == OpaqueJoinNL(SpecEofList(OpaqueSplitNL(SpecOut(ruleId, utils.OpaqueScanLines(string(contents)), len(utils.OpaqueScanLines(string(contents))))))))
+//@   loop 0 invariant scanLines(scanner) == utils.OpaqueScanLines(string(contents)) && 0 <= scanPos(scanner) && scanPos(scanner) <= len(scanLines(scanner))
+//@   loop 0 invariant idCount == SpecIdCount(scanLines(scanner), scanPos(scanner))
+//@   loop 0 invariant titleCount == SpecTitleCount(scanLines(scanner), scanPos(scanner))
+//@   loop 0 invariant bufContent(output) == SpecOut(ruleId, scanLines(scanner), scanPos(scanner))
+//@   loop 0 decreases len(scanLines(scanner)) - scanPos(scanner)
+
+var _ = strings.TrimSpace
+var _ = utils.OpaqueScanLines
